@@ -906,6 +906,10 @@ impl Scanner for EntryScanner<'_> {
         // byte of the first char-string. This way, if there is only one and
         // it isn’t escaped, we don’t need to move anything at all.
 
+        // There needs to be at least one string. Without this check we
+        // would run over the line feed into the next entry.
+        self.zonefile.buf.require_token()?;
+
         // Let’s prepare everything. We cut off the bits we don’t need with
         // the result that the buffer’s start will be 1 and we set `write`
         // to be 0, i.e., the start of the buffer. This also means that write
